@@ -2240,7 +2240,7 @@ class DtsAccessor:
                 # firsaxis
                 out["tmpf_mc_avgx2"] = (("CI", time_dim2), qq)
 
-        if ci_avg_time_flag1 is not None:
+        if ci_avg_time_flag1:
             # unweighted mean
             out["tmpf_avg1"] = mcparams["tmpf_avgsec"].mean(dim=time_dim2)
 
@@ -2607,7 +2607,7 @@ class DtsAccessor:
                     # firsaxis
                     out[label + "_mc_avgx2"] = (("CI", time_dim2), qq)
 
-            if ci_avg_time_flag1 is not None:
+            if ci_avg_time_flag1:
                 # unweighted mean
                 out[label + "_avg1"] = mcparams[label + "_avgsec"].mean(dim=time_dim2)
 
